@@ -71,7 +71,35 @@ def params_reach(t, st, acc=None, seen=None):
 
 # requests whose documented normal form keys the node on projections of an argument (judged by the rule that owns the normal form)
 NORMAL_FORMS = (('ipr::impl::type_factory::get_qualified(', 1,
-                 'a qualified operand is flattened: the node is keyed on its main variant and the union of the sets (C11.merge)'),)
+                 'a qualified operand is flattened: the node is keyed on its main variant and the union of the sets (C11.merge)'),
+                ('ipr::impl::type_factory::get_qualified(', 0,
+                 'a qualified operand is flattened: the requested set enters the key in union with the set read from the operand (C11.merge)',
+                 'union-with-operand-set'))
+
+
+def union_with_operand_set(F, f, p, terms):
+    """Every key-side term that mentions parameter p is `p | <a set of the same type read from another parameter>`: the documented
+    normal form of get_qualified, whose exact shape the merge rule judges.  (An address or any other quantity or-ed into the set
+    is not that form.)"""
+    want = f['params'][p]['t'].replace('const ', '').replace('&', '').strip()
+    for _h, t in terms:
+        if not (isinstance(t, tuple) and len(t) == 4 and t[0] == 'op' and t[1] == '|'):
+            return False
+        a, b = t[2], t[3]
+        if b == ('param', p + Q):
+            a, b = b, a
+        if a != ('param', p + Q):
+            return False
+        if not (isinstance(b, tuple) and len(b) >= 4 and b[0] in ('call', 'vcall') and isinstance(b[2], tuple) and b[2][0] == 'param'
+                and b[2][1] >= Q and b[2][1] != p + Q and not b[3]):
+            return False
+        g = F.fn.get(b[1])
+        if g is None:
+            g = next((m for r in F.rec.values() for m in r.get('methods', []) if m['id'] == b[1]), None)
+        ret = ((g or {}).get('ret') or '').replace('const ', '').replace('&', '').strip()
+        if ret != want:
+            return False
+    return True
 
 INJECTIVE_CALLS = ('characters', 'rep', 'intern', 'begin', 'end', 'cbegin', 'cend', 'get', 'basic_string_view', 'data',
                    'length', 'size')
@@ -889,7 +917,8 @@ class KeyChecker:
                     if all(any(contains(t, core(subst(c))) for _h, t in how_terms) for c in comps):
                         continue
                 inst = contracts.short(contracts.fn_qname(fid)) + '(' + ', '.join(contracts.short(q['t']) for q in f['params']) + ')/' + str(f['params'][p]['name'] or p)
-                why = [w for (suffix, idx, w) in tuple(allow) + NORMAL_FORMS if fid.startswith(suffix) and idx == p]
+                why = [e_[2] for e_ in tuple(allow) + NORMAL_FORMS if fid.startswith(e_[0]) and e_[1] == p
+                       and (len(e_) < 4 or union_with_operand_set(self.F, f, p, how_terms))]
                 if why:
                     self.ck.note(f'{inst}: keyed through {sorted(how)} by design: {why[0]}')
                     continue
